@@ -8,7 +8,7 @@ import Penguin.Model.Mux
 import Penguin.Model.Frame
 import Penguin.Lemmas.Link
 import Penguin.Lemmas.MuxStep
-import Penguin.Lemmas.PairCor
+import Penguin.Lemmas.PairHarness
 
 namespace Penguin.C02
 open Penguin Penguin.Link
@@ -99,6 +99,18 @@ theorem pair_one_object_per_flow {oa ob : Opts} {ra rb : List Nat} (c : Cfg oa o
     (∀ k o, p.a.objs[k]? = some o → o.fid = x → k = i) ∧ (∀ k o, p.b.objs[k]? = some o → o.fid = x → k = j) := by
   obtain ⟨_, _, _, _, _, _, _, _, _, _, h1, h2⟩ := established_dir (reach_inv c as) e
   exact ⟨h1, h2⟩
+
+open Penguin.Mux Penguin.Pair in
+/-- The same at the level the correspondence harness works at: after EVERY history of stimuli
+    (application calls and deliveries at either endpoint, each followed by that endpoint's run to
+    quiescence, `Mux.applyOp`), on every established flow the bytes read are a prefix of the bytes
+    written and every written byte is in exactly one place. -/
+theorem harness_history_bytes {oa ob : Opts} {ra rb : List Nat} (c : Cfg oa ob ra rb) (l : List (Pair.Side × Stim)) (q : PS)
+    (h : stimRun (Pair.init oa ob ra rb) l = some q) {x i j : Nat} (e : Established q x i j) :
+    ∃ oB, q.b.objs[j]? = some oB ∧
+      q.gb.rlog j ++ oB.buf ++ oB.rxq.flatten ++ (pushesOf x (pathAB q)).flatten = q.ga.wlog i ∧
+      q.gb.rlog j <+: q.ga.wlog i :=
+  established_bytes (stim_history_inv c l q h) e
 
 /-! Non-vacuity of the pair theorems: a concrete run (windows 2, threshold 1) that opens a stream,
     writes three bytes, reads them in two reads, shuts down and reads end-of-stream. -/
